@@ -30,7 +30,7 @@ ASSUMPTIONS = [
     "held = held on the executions produced; depth explored up to 1e4 (quick) / 1e5 (thorough)",
 ]
 REQUIRED = ["histories_checked", "events_checked", "deep_traversals", "low_limit_traversals",
-            "raising_callbacks_checked", "tap__traverse_dfs"]
+            "raising_callbacks_checked", "list_mutating_callbacks", "tap__traverse_dfs"]
 FLOOR = {"quick": 1500, "thorough": 20000}
 SHARDS = {"quick": 8, "thorough": 16}
 TECHNIQUE = ("runtime monitoring: recorded enter/leave callback histories with unique tokens "
@@ -107,7 +107,7 @@ def check_history(pid, start, ev, ret, has_enter, has_leave):
     return None
 
 
-def _run_traverse(tree, api, mode, start, *, raise_at=None):
+def _run_traverse(tree, api, mode, start, *, raise_at=None, hostile=False):
     """Run one traversal with recording callbacks; returns (events, ret, node_errors)."""
     from swcgeom.core import Tree
     from swcgeom.core import swc_utils as su
@@ -140,6 +140,11 @@ def _run_traverse(tree, api, mode, start, *, raise_at=None):
             raise boom
         tok = Tok("l", i)
         ev.append(("leave", i, list(arg), tok))
+        if hostile:
+            # a callback may consume the list it was handed (in-place reduce): that must not leak
+            # into what any other node receives
+            arg.append(Tok("junk", i))
+            arg.reverse()
         return tok
 
     kw = {}
@@ -198,8 +203,10 @@ def _exec_small(ctx, case):
     api, mode, start = case["api"], case["mode"], case["start"]
     n = len(pid)
     try:
+        if case.get("hostile"):
+            ctx.count("list_mutating_callbacks")
         (ev, ret, nerr), steps = _budget().run(2000 * (n + 2) ** 2, _run_traverse, tree, api,
-                                               mode, start)
+                                               mode, start, hostile=bool(case.get("hostile")))
     except probes.StepBudgetExceeded as e:
         ctx.violation("diverged", f"traversal did not finish within the step budget: {e}", case)
         return
@@ -341,6 +348,8 @@ def _workload(ctx):
             api = APIS[int(rng.integers(0, 3))]
             mode = MODES[int(rng.integers(0, 3))]
             case = {"kind": "small", "tree": rc, "api": api, "mode": mode, "start": int(start)}
+            if "l" in mode and rng.random() < 0.5:
+                case["hostile"] = True
             ctx.case(case, nontrivial=len(ch[start]) > 0, klass=f"small/{rc['shape']}")
             execute(ctx, case)
         # all three entry points and all three modes must agree on one start per tree
